@@ -64,6 +64,17 @@ def hostile_docs():
             d = corpus.build_ok(e, {'groups': ng, 'sets': 2})
             if d is not None:
                 yield ('hostile:%s:groups%d' % (e[4], ng), d.text('!', '|', '>', eol='\n'), {})
+        # (d) one set that collects every set-level code at once (reused ST02, SE02 mismatching and over-long, SE01 non-numeric and
+        #     wrong, an unknown body segment): AK5 / IK5 has room for five codes
+        d = copy.deepcopy(corpus.build_ok(e, {'sets': 2}) or base)
+        sts = [i for i, s_ in enumerate(d.segs) if s_[0] == 'ST']
+        ses = [i for i, s_ in enumerate(d.segs) if s_[0] == 'SE']
+        if len(sts) >= 2 and len(ses) >= 2:
+            d.segs[sts[1]][2] = d.segs[sts[0]][2]
+            d.segs[ses[1]][1] = 'x'
+            d.segs[ses[1]][2] = 'CONTROLNUMBERTOOLONG'
+            d.segs.insert(ses[1], ['ZZZ', 'A']); d.nodes.insert(ses[1], None); d.lpaths.insert(ses[1], d.lpaths[ses[1] - 1])
+            yield ('hostile:%s:every-set-level-code' % e[4], d.text(eol='\n'), {})
         # (c) control numbers as fixed-width systems write them: blank padded / zero filled, header and trailer alike
         #     (the source envelope is consistent; the acknowledgement's own envelope must be too)
         for name, fn in (('pad-right', lambda v: v + '   '), ('pad-left', lambda v: '  ' + v), ('zero-fill', lambda v: '000' + v), ('pad-both', lambda v: ' ' + v + ' ')):
